@@ -609,6 +609,143 @@ class SBytes:
         return "SBytes(%r)" % (self.b,)
 
 
+class SByteArray:
+    """bytearray as seen by instrumented modules: a mutable list of ints / SInt (0..255)."""
+
+    __slots__ = ("b", "rope")
+
+    def __init__(self, items=()):
+        self.b = list(items)
+        self.rope = None     # set once a file blob was appended: contents = rope + b (append-only from then on)
+
+    def frozen(self):
+        """Immutable value of the contents (bytes / SBytes / SRope)."""
+        if self.rope is None:
+            return mkbytes(self.b)
+        return self.rope + mkbytes(self.b) if self.b else self.rope
+
+    def _add_blob(self, o):
+        self.rope = SRope([self.frozen(), o])
+        self.b = []
+
+    @staticmethod
+    def _items(o):
+        if isinstance(o, (SBytes, SByteArray)):
+            return list(o.b)
+        if isinstance(o, (bytes, bytearray)):
+            return list(o)
+        if isinstance(o, (SBlob, SRope)):
+            raise Unmodelled("bytearray += file blob")
+        out = []
+        for x in o:
+            SByteArray._check(x)
+            out.append(x)
+        return out
+
+    @staticmethod
+    def _check(x):
+        if isinstance(x, SInt):
+            if x.lo is None or x.lo < 0 or x.hi > 255:
+                if not bool(sbool(z3.And(x.t >= 0, x.t <= 255))):
+                    raise ValueError("byte must be in range(0, 256)")
+        elif not isinstance(x, int):
+            raise TypeError("an integer is required")
+        elif not 0 <= x <= 255:
+            raise ValueError("byte must be in range(0, 256)")
+
+    def append(self, x):
+        self._check(x)
+        self.b.append(x)
+
+    def extend(self, o):
+        if isinstance(o, (SBlob, SRope)):
+            self._add_blob(o)
+        else:
+            self.b.extend(self._items(o))
+
+    def __iadd__(self, o):
+        if not isinstance(o, (bytes, bytearray, SBytes, SByteArray, SBlob, SRope)):
+            raise TypeError("can't concat %s to bytearray" % type(o).__name__)
+        self.extend(o)
+        return self
+
+    def __add__(self, o):
+        if not isinstance(o, (bytes, bytearray, SBytes, SByteArray)):
+            return NotImplemented
+        return SByteArray(self.b + self._items(o))
+
+    def __radd__(self, o):
+        if isinstance(o, (bytes, bytearray)):
+            return mkbytes(list(o) + self.b)
+        return NotImplemented
+
+    def __len__(self):
+        if self.rope is not None:
+            return len(self.frozen())
+        return len(self.b)
+
+    def __bool__(self):
+        if self.rope is not None:
+            return bool(self.frozen())
+        return len(self.b) > 0
+
+    def __iter__(self):
+        if self.rope is not None:
+            raise Unmodelled("iteration over a bytearray holding a file blob")
+        return iter(list(self.b))
+
+    def __getitem__(self, i):
+        if self.rope is not None:
+            raise Unmodelled("indexing a bytearray holding a file blob")
+        if isinstance(i, slice):
+            return SByteArray(self.b[i])
+        if isinstance(i, SInt):
+            i = core.concretize(i)
+        return self.b[i]
+
+    def __setitem__(self, i, v):
+        if isinstance(i, slice):
+            self.b[i] = self._items(v)
+            return
+        if isinstance(i, SInt):
+            i = core.concretize(i)
+        self._check(v)
+        self.b[i] = v
+
+    def __delitem__(self, i):
+        del self.b[i]
+
+    def clear(self):
+        self.b.clear()
+
+    def __mul__(self, n):
+        if isinstance(n, SInt):
+            n = core.concretize(n, limit=70000)
+        return SByteArray(self.b * n)
+
+    __rmul__ = __mul__
+
+    def __eq__(self, o):
+        if not isinstance(o, (bytes, bytearray, SBytes, SByteArray)):
+            return False
+        return mkbytes(self.b) == (mkbytes(o.b) if isinstance(o, SByteArray) else o)
+
+    def __ne__(self, o):
+        r = self.__eq__(o)
+        return (not r) if isinstance(r, bool) else sbool(z3.Not(r.t))
+
+    def __hash__(self):
+        raise TypeError("unhashable type: 'bytearray'")
+
+    def __getattr__(self, name):
+        if hasattr(bytearray, name):
+            raise Unmodelled(f"bytearray.{name}")
+        raise AttributeError(name)
+
+    def __repr__(self):
+        return "SByteArray(%r)" % (self.b,)
+
+
 class SBlob:
     """`content[start : start+length]` of a named, unconstrained byte source with symbolic
     start and length: a block of thousands of bytes costs one term."""
